@@ -5,6 +5,7 @@ package main
 import (
 	"encoding/json"
 	"fmt"
+	"regexp"
 	"os"
 	"path/filepath"
 	"sort"
@@ -56,25 +57,108 @@ func (w *World) prelude() string {
 	return basePrelude + w.structDecls() + w.Contracts.specText
 }
 
+// specChunk: one blank-line-separated block of the spec prelude with the symbols it introduces.
+type specChunk struct {
+	text string
+	syms []string
+}
+
+var specChunks []specChunk
+
+func (w *World) buildSpecChunks() {
+	if specChunks != nil {
+		return
+	}
+	for _, blk := range strings.Split(w.Contracts.specText, "\n\n") {
+		if strings.TrimSpace(blk) == "" {
+			continue
+		}
+		c := specChunk{text: blk + "\n"}
+		for _, loc := range specSigRe.FindAllStringSubmatch(blk, -1) {
+			c.syms = append(c.syms, loc[2])
+		}
+		for _, m := range sortDeclRe.FindAllStringSubmatch(blk, -1) {
+			c.syms = append(c.syms, m[1])
+		}
+		specChunks = append(specChunks, c)
+	}
+}
+
+var sortDeclRe = regexp.MustCompile(`\(declare-sort\s+([^\s()]+)`)
+
+// preludeFor includes only the spec chunks whose symbols the query (transitively) mentions, so
+// that quantified axioms of one property do not slow down the queries of another.
+func (w *World) preludeFor(body string) string {
+	w.buildSpecChunks()
+	need := make([]bool, len(specChunks))
+	text := body
+	for changed := true; changed; {
+		changed = false
+		for i, c := range specChunks {
+			if need[i] {
+				continue
+			}
+			for _, s := range c.syms {
+				if containsSymbol(text, s) {
+					need[i] = true
+					changed = true
+					text += c.text
+					break
+				}
+			}
+		}
+	}
+	var b strings.Builder
+	b.WriteString(basePrelude)
+	b.WriteString(w.structDecls())
+	for i, c := range specChunks {
+		if need[i] || len(c.syms) == 0 && false {
+			b.WriteString(c.text)
+		}
+	}
+	return b.String()
+}
+
+func containsSymbol(text, sym string) bool {
+	from := 0
+	for {
+		k := strings.Index(text[from:], sym)
+		if k < 0 {
+			return false
+		}
+		k += from
+		before := k == 0 || !isSymByte(text[k-1])
+		after := k+len(sym) >= len(text) || !isSymByte(text[k+len(sym)])
+		if before && after {
+			return true
+		}
+		from = k + 1
+	}
+}
+
+func isSymByte(c byte) bool {
+	return c == '_' || c == '.' || c == '-' || (c >= '0' && c <= '9') || (c >= 'a' && c <= 'z') || (c >= 'A' && c <= 'Z')
+}
+
 func (o *Obligation) query() string {
 	if o.Custom != "" {
 		return o.Custom
 	}
 	var b strings.Builder
-	b.WriteString(o.fx.W.prelude())
 	for _, l := range o.fx.lines[:o.prefix] {
 		b.WriteString(l)
 		b.WriteByte('\n')
 	}
 	b.WriteString("(assert " + o.PC + ")\n")
 	b.WriteString("(assert (not " + o.Goal + "))\n")
-	return b.String()
+	body := b.String()
+	return o.fx.W.preludeFor(body) + body
 }
 
 // vacuity query: is the path condition (with all assumptions) satisfiable at all?
 func (o *Obligation) reachQuery() string {
 	var b strings.Builder
-	b.WriteString(o.fx.W.prelude())
+	b.WriteString(o.fx.W.preludeFor(strings.Join(o.fx.lines[:o.prefix], "\n") + o.PC))
 	for _, l := range o.fx.lines[:o.prefix] {
 		b.WriteString(l)
 		b.WriteByte('\n')
